@@ -46,18 +46,32 @@ def _server_port() -> int:
     import uvicorn
 
     import fakesnow.server
-    s = socket.socket()
-    s.bind(("127.0.0.1", 0))
-    port = s.getsockname()[1]
-    s.close()
-    server = uvicorn.Server(uvicorn.Config(fakesnow.server.app, port=port, log_level="critical"))
-    th = threading.Thread(target=server.run, name="Server", daemon=True)
-    th.start()
-    t0 = time.time()
-    while not server.started:
-        if time.time() - t0 > 90:
-            raise common.Infra("uvicorn server did not start")
-        time.sleep(0.02)
+    # An ephemeral port can be taken by another worker between probing and binding (uvicorn then exits at once), and a
+    # loaded machine can be slow to start the loop: retry on a fresh port instead of giving up.
+    last = ""
+    for attempt in range(8):
+        s = socket.socket()
+        s.bind(("127.0.0.1", 0))
+        port = s.getsockname()[1]
+        s.close()
+        server = uvicorn.Server(uvicorn.Config(fakesnow.server.app, host="127.0.0.1", port=port, log_level="critical"))
+
+        def _run(server=server):
+            try:
+                server.run()
+            except BaseException as e:  # bind failure raises SystemExit inside uvicorn
+                nonlocal last
+                last = f"{type(e).__name__}: {e}"
+        th = threading.Thread(target=_run, name="Server", daemon=True)
+        th.start()
+        t0 = time.time()
+        while not server.started and th.is_alive() and time.time() - t0 < 60:
+            time.sleep(0.02)
+        if server.started:
+            break
+        server.should_exit = True
+    else:
+        raise common.Infra(f"uvicorn server did not start after 8 attempts ({last})")
     _SERVER.update(pid=os.getpid(), port=port, server=server)
     return port
 
